@@ -147,3 +147,76 @@ HARNESS(h_c09_orchestrate) {
     }
     k4_dump_mother(io, *c);
 }
+
+// ---------------------------------------------------------------------------------------------
+// K5: the real cell_divider::run (readiness test, collection of the mothers, appending of the daughters, removal of the mothers,
+// renumbering) on a population of n epithelial tetrahedra. divide_cell is replaced by its contract (k5_divide_cell: two fresh cells of the
+// mother's class, or nothing) because K1-K4 are about the real one. Which cells are ready (volume >= division volume) and which divisions
+// succeed is decided by the symbolic doubles in din, so every subset is a path.
+// iin: [n, id offset]; din: [volume of cell i (n), success selector of cell i (n): division succeeds iff > 0]
+// iout: [number of divide_cell calls, (local id of the mother, success) per call, max id afterwards, size of the list afterwards,
+//        per cell: id, local id, index of the original cell it is (or -1), index of the mother it is a daughter of (or -1), number of faces]
+static const double* g_k5_sel = nullptr;
+static long g_k5_ncalls = 0;
+static long g_k5_call_mother[16], g_k5_call_ok[16];
+static cell* g_k5_daughter[32]; static long g_k5_daughter_of[32]; static long g_k5_nd = 0;
+std::optional<std::pair<cell_ptr, cell_ptr>> k5_divide_cell(cell_ptr c, const double l_min, const local_mesh_refiner& lmr) {
+    const long i = (long) c->get_local_id();
+    const bool ok = g_k5_sel[i] > 0.;
+    g_k5_call_mother[g_k5_ncalls] = i; g_k5_call_ok[g_k5_ncalls] = ok; g_k5_ncalls++;
+    if (!ok) return std::nullopt;
+    static const double TP[12] = {0, 0, 0, 1, 0, 0, 0, 1, 0, 0, 0, 1};
+    static const unsigned TF[12] = {0, 2, 1, 0, 1, 3, 0, 3, 2, 1, 2, 3};
+    mesh m1, m2;
+    for (int k = 0; k < 4; k++) {
+        m1.node_pos_lst.insert(m1.node_pos_lst.end(), {3. * i + 0.4 * TP[3 * k] + 0.5, 0.4 * TP[3 * k + 1], 0.4 * TP[3 * k + 2]});
+        m2.node_pos_lst.insert(m2.node_pos_lst.end(), {3. * i - 0.4 * TP[3 * k] - 0.05, 0.4 * TP[3 * k + 2], 0.4 * TP[3 * k + 1]});
+    }
+    for (int f = 0; f < 4; f++) { m1.face_point_ids.push_back({TF[3 * f], TF[3 * f + 1], TF[3 * f + 2]}); m2.face_point_ids.push_back({TF[3 * f], TF[3 * f + 1], TF[3 * f + 2]}); }
+    cell_ptr d1 = c->get_cell_same_type(m1), d2 = c->get_cell_same_type(m2);
+    d1->initialize_cell_properties(true); d2->initialize_cell_properties(true);
+    g_k5_daughter[g_k5_nd] = d1.get(); g_k5_daughter_of[g_k5_nd++] = i;
+    g_k5_daughter[g_k5_nd] = d2.get(); g_k5_daughter_of[g_k5_nd++] = i;
+    return std::make_pair(d1, d2);
+}
+
+HARNESS(h_c09_run) {
+    const long n = io->iin[0], off = io->iin[1];
+    const double* D = io->din;
+    auto ct = std::make_shared<cell_type_parameters>();
+    ct->global_type_id_ = 0;
+    face_type_parameters ft; ct->add_face_type(ft); ct->add_face_type(ft); ct->add_face_type(ft);
+    std::vector<cell_ptr> cells;
+    cell* orig[16];
+    for (long i = 0; i < n; i++) {
+        std::vector<double> pos = {3. * i, 0, 0, 3. * i + 1, 0, 0, 3. * i, 1, 0, 3. * i, 0, 1};
+        std::vector<unsigned> ids = {0, 2, 1, 0, 1, 3, 0, 3, 2, 1, 2, 3};
+        cell_ptr c = std::make_shared<epithelial_cell>(pos, ids, (unsigned) (off + i), ct);
+        c->initialize_cell_properties(true);
+        c->set_local_id((unsigned) i);
+        c->volume_ = D[i]; c->division_volume_ = 1.;
+        cells.push_back(c); orig[i] = c.get();
+    }
+    g_k5_sel = D + n; g_k5_ncalls = 0; g_k5_nd = 0;
+    unsigned max_id = (unsigned) (off + n);
+    local_mesh_refiner lmr(0.3, 0.9, false);
+    cell_divider::run(cells, 0.3, lmr, max_id, false);
+    OI(g_k5_ncalls);
+    for (long k = 0; k < g_k5_ncalls; k++) { OI(g_k5_call_mother[k]); OI(g_k5_call_ok[k]); }
+    OI(max_id); OI(cells.size());
+    for (const cell_ptr& c : cells) {
+        long o = -1, m = -1;
+        for (long i = 0; i < n; i++) if (orig[i] == c.get()) o = i;
+        for (long k = 0; k < g_k5_nd; k++) if (g_k5_daughter[k] == c.get()) m = g_k5_daughter_of[k];
+        OI(c->get_id()); OI(c->get_local_id()); OI(o); OI(m); OI(c->get_face_lst().size());
+    }
+}
+
+#if defined(IRSYM_NATIVE) && defined(K5_NATIVE_OVERRIDE)
+// native replay of K5 only: the repository object that defines cell_divider::divide_cell is linked with that symbol weakened
+// (objcopy --weaken-symbol, see checks/c09.py build_native_k5) and this definition takes its place, so that the real, compiled
+// cell_divider::run calls the same contract stand-in as under irsym.
+std::optional<std::pair<cell_ptr, cell_ptr>> cell_divider::divide_cell(cell_ptr c, const double l_min, const local_mesh_refiner& lmr) noexcept {
+    return k5_divide_cell(c, l_min, lmr);
+}
+#endif
